@@ -479,3 +479,111 @@ func TestC15_Histories(t *testing.T) {
 	})
 	col("C15").Completed("TestC15_Histories")
 }
+
+// TestC15_FailedThenGood: a Deserialize call that fails late (after its string and tag sections have been handed to
+// background decompression) followed at once by a good call on the same Serializer and destination. The sections are
+// made large, so that anything the failed call leaves running would still be running.
+type c15FailGood struct {
+	NA       int `json:"na"`
+	NB       int `json:"nb"`
+	ModeA    int `json:"mode_a"`
+	ModeB    int `json:"mode_b"`
+	Attempts int `json:"attempts"`
+	DamageAt int `json:"damage_at"` // 0: values block type, 1: values size varint made huge, 2: last value byte dropped
+}
+
+func bigStringDoc(prefix string, n int, atom string) []byte {
+	var b bytes.Buffer
+	b.WriteByte('[')
+	for i := 0; i < n; i++ {
+		if i > 0 {
+			b.WriteByte(',')
+		}
+		if i%2 == 0 {
+			b.WriteString(`"` + prefix + strconv.Itoa(1000000+i) + `-` + strings.Repeat(prefix[:1], 16) + `"`)
+		} else {
+			b.WriteString(atom)
+		}
+	}
+	b.WriteByte(']')
+	return b.Bytes()
+}
+
+func c15FailGoodCheck(c c15FailGood) error {
+	docA := bigStringDoc("alpha-", c.NA, "true")
+	docB := bigStringDoc("BRAVO-", c.NB, "null")
+	pjA, err := simdjson.Parse(docA, nil)
+	if err != nil {
+		return bugf("%v", err)
+	}
+	pjB, err := simdjson.Parse(docB, nil)
+	if err != nil {
+		return bugf("%v", err)
+	}
+	sa := simdjson.NewSerializer()
+	sa.CompressMode(simdjson.CompressMode(c.ModeA % 4))
+	serA := sa.Serialize(nil, *pjA)
+	bad := append([]byte(nil), serA...)
+	f, _, ferr := walkFrame(bad)
+	if ferr != nil || !f.vals.present || len(f.vals.data) == 0 {
+		return bugf("cannot locate the values block: %v", ferr)
+	}
+	switch c.DamageAt % 3 {
+	case 0:
+		bad[len(bad)-len(f.vals.data)-1] = 0x7f // unknown block type
+	case 1:
+		bad = bad[:len(bad)-1] // values block shorter than declared
+	default:
+		bad[len(bad)-len(f.vals.data)-1] ^= 3 // another (wrong) block type
+	}
+	sb := simdjson.NewSerializer()
+	sb.CompressMode(simdjson.CompressMode(c.ModeB % 4))
+	serB := sb.Serialize(nil, *pjB)
+	want, err := canonOf(pjB)
+	if err != nil {
+		return bugf("%v", err)
+	}
+	shared := simdjson.NewSerializer()
+	if _, err := shared.Deserialize(serA, nil); err != nil {
+		return fmt.Errorf("warm-up Deserialize failed: %v", err)
+	}
+	dst, err := shared.Deserialize(serB, nil)
+	if err != nil {
+		return fmt.Errorf("warm-up Deserialize failed: %v", err)
+	}
+	for a := 0; a < c.Attempts; a++ {
+		if _, err := shared.Deserialize(bad, dst); err == nil {
+			// a wrong-but-valid block type may still decode: not what this check is about
+			if c.DamageAt%3 == 0 {
+				return fmt.Errorf("Deserialize accepted a blob with an unknown block type")
+			}
+		}
+		got, err := shared.Deserialize(serB, dst)
+		if err != nil {
+			return fmt.Errorf("attempt %d: a good blob is rejected right after a failed Deserialize on the same Serializer and destination: %v", a, err)
+		}
+		gc, err := canonOf(got)
+		if err != nil || !bytes.Equal(gc, want) {
+			return fmt.Errorf("attempt %d: Deserialize right after a failed Deserialize (same Serializer and destination, modes %d then %d) returns a different document: %v %s", a, c.ModeA%4, c.ModeB%4, err, diffCanon(want, gc))
+		}
+		dst = got
+	}
+	return nil
+}
+
+var c15FailGoodRun = register("C15", "failed-then-good", c15FailGoodCheck)
+
+func TestC15_FailedThenGood(t *testing.T) {
+	r := newPRNG("C15_FailedThenGood")
+	n := nCases(48, 800)
+	for i := 0; i < n; i++ {
+		c := c15FailGood{NA: 150000 + r.intn(250000), NB: 40000 + r.intn(80000), ModeA: 1 + r.intn(3), ModeB: r.intn(4), Attempts: 25, DamageAt: r.intn(3)}
+		if r.intn(3) == 0 {
+			c.ModeB = 0 // plain copy: the good call reaches its tape rebuild at once
+		}
+		c15FailGoodRun(t, c)
+		b, _ := json.Marshal(c)
+		col("C15").Eval(true, evidHash(b), "failed-then-good-deserialize")
+	}
+	col("C15").Completed("TestC15_FailedThenGood")
+}
